@@ -3,6 +3,7 @@ package main
 // C17 Render sends the given status, the right content type and a faithful body.
 
 import (
+	"go/token"
 	"go/types"
 	"strings"
 
@@ -90,6 +91,14 @@ func checkC17(c *Check) {
 			}
 			setCT = ci
 			ct := a[2]
+			// a text precomputed when the render was constructed (a field of render, or of a struct value kept in
+			// one, that Renderer fills): judged at the place where it is computed, with the option value that is
+			// stored into the same render
+			ctorCharset := VM(nil)
+			if cv, csOK := ctorFieldExpr(p, rnFn, recv, ct); cv != nil {
+				ct = cv
+				ctorCharset = csOK
+			}
 			if sp.charset {
 				// constant text naming the format and "charset=", then the configured charset
 				parts := concatParts(ct)
@@ -102,7 +111,32 @@ func checkC17(c *Check) {
 					}
 					text += s
 				}
-				if allConst && strings.Contains(text, sp.marker) && strings.HasSuffix(text, "charset=") && optField(recv, "Charset")(parts[len(parts)-1]) {
+				// the charset: the configured field, or — only on the edge where that field is empty — the
+				// documented default (a defensive fallback equal to what option parsing stores)
+				isCharset := func(v ssa.Value) bool {
+					cs := optField(recv, "Charset")
+					if ctorCharset != nil {
+						cs = ctorCharset
+					}
+					if cs(v) {
+						return true
+					}
+					ph, isPhi := strip(v).(*ssa.Phi)
+					if !isPhi {
+						return false
+					}
+					emptyCS := edgesWhere(m, cEmptyStr(cs), true)
+					for i, e := range ph.Edges {
+						switch {
+						case cs(e):
+						case vConstStr("utf-8")(e) && len(emptyCS) > 0 && edgeGuarded(m, emptyCS, ph.Block().Preds[i], ph.Block()):
+						default:
+							return false
+						}
+					}
+					return true
+				}
+				if allConst && strings.Contains(text, sp.marker) && strings.HasSuffix(text, "charset=") && isCharset(parts[len(parts)-1]) {
 					okCT = true
 				}
 			} else if s, isS := constStr(ct); isS && strings.Contains(s, sp.marker) {
@@ -255,4 +289,150 @@ func checkC17(c *Check) {
 		}
 	}
 	c.Cond(okMap, p.FuncKey(rn)+":maps-render", p.FuncPos(rn), "c.MapTo(&render{opts, c.ResponseWriter()}, (*Render)(nil)) on the request context", "Renderer does not map a fresh render bound to the request's writer on the request context")
+}
+
+// structFieldValues: the values field `field` of the struct value v may hold, followed through loads of
+// local cells (also captured ones), whole-struct copies and field stores. nil when the flow is not understood.
+func structFieldValues(v ssa.Value, field string, depth int) []ssa.Value {
+	if depth > 6 {
+		return nil
+	}
+	v = strip(v)
+	u, ok := v.(*ssa.UnOp)
+	if !ok || u.Op != token.MUL {
+		return nil
+	}
+	var cell ssa.Value = u.X
+	for {
+		fv, isFV := cell.(*ssa.FreeVar)
+		if !isFV {
+			break
+		}
+		cell = freeVarBinding(fv)
+	}
+	al, isAl := cell.(*ssa.Alloc)
+	if !isAl {
+		return nil
+	}
+	var out []ssa.Value
+	understood := true
+	var visit func(c ssa.Value, d int)
+	visit = func(c ssa.Value, d int) {
+		if d > 4 {
+			understood = false
+			return
+		}
+		for _, r := range referrers(c) {
+			switch x := r.(type) {
+			case *ssa.FieldAddr:
+				if fieldOf(x).Name() != field {
+					continue
+				}
+				for _, rr := range referrers(x) {
+					if st, isSt := rr.(*ssa.Store); isSt && st.Addr == ssa.Value(x) {
+						out = append(out, st.Val)
+					}
+				}
+			case *ssa.Store:
+				if x.Addr == c {
+					// whole-struct copy
+					sub := structFieldValues(x.Val, field, depth+1)
+					if sub == nil {
+						if _, isC := strip(x.Val).(*ssa.Const); !isC {
+							// a call result or parameter: not understood, unless it is a zero value
+							understood = false
+						}
+					}
+					out = append(out, sub...)
+				}
+			case *ssa.MakeClosure:
+				for i, b := range x.Bindings {
+					if b == c {
+						visit(x.Fn.(*ssa.Function).FreeVars[i], d+1)
+					}
+				}
+			}
+		}
+	}
+	visit(al, 0)
+	if !understood {
+		return nil
+	}
+	return out
+}
+
+// ctorFieldExpr resolves a read of recv.f (or recv.f.g, f holding a struct value) in a method of
+// render to the expression Renderer stores there when it constructs the render. It also returns a
+// matcher for "field Charset of the options value stored into the same render's opts".
+func ctorFieldExpr(p *Prog, rnFn *ssa.Function, recv VM, v ssa.Value) (ssa.Value, VM) {
+	if rnFn == nil {
+		return nil, nil
+	}
+	r, ns, ok := fieldPath(v)
+	if !ok || !recv(r) || len(ns) == 0 || len(ns) > 2 || ns[0] == "opts" {
+		return nil, nil
+	}
+	var found []ssa.Value
+	var optsCell *ssa.Alloc
+	n := 0
+	for _, l := range withLits(rnFn) {
+		allInstrs(l, func(in ssa.Instruction) {
+			al, isAl := in.(*ssa.Alloc)
+			if !isAl || namedName(derefT(al.Type())) != "render" {
+				return
+			}
+			n++
+			stored := func(obj ssa.Value, field string) ssa.Value {
+				var val ssa.Value
+				for _, rf := range referrers(obj) {
+					if fa, isFA := rf.(*ssa.FieldAddr); isFA && fieldOf(fa).Name() == field {
+						for _, rr := range referrers(fa) {
+							if st, isSt := rr.(*ssa.Store); isSt && st.Addr == ssa.Value(fa) {
+								val = st.Val
+							}
+						}
+					}
+				}
+				return val
+			}
+			val := stored(al, ns[0])
+			if val == nil {
+				return
+			}
+			if len(ns) == 2 {
+				found = structFieldValues(val, ns[1], 0)
+			} else {
+				found = []ssa.Value{val}
+			}
+			if ov := stored(al, "opts"); ov != nil {
+				optsCell = cellOf(ov)
+			}
+		})
+	}
+	if len(found) != 1 || n != 1 {
+		return nil, nil
+	}
+	// "the Charset of the options stored into the same render": a read of field Charset of the cell whose
+	// value becomes render.opts (possibly through a plain local copy)
+	cs := func(x ssa.Value) bool {
+		x = strip(x)
+		u, isU := x.(*ssa.UnOp)
+		if !isU {
+			return false
+		}
+		fa, isFA := u.X.(*ssa.FieldAddr)
+		if !isFA || fieldOf(fa).Name() != "Charset" {
+			return false
+		}
+		var cell ssa.Value = fa.X
+		for {
+			fv, isFV := cell.(*ssa.FreeVar)
+			if !isFV {
+				break
+			}
+			cell = freeVarBinding(fv)
+		}
+		return optsCell != nil && cell == ssa.Value(optsCell)
+	}
+	return found[0], cs
 }
